@@ -118,6 +118,11 @@ def alternative(draw, kind, regs, env):
         bottom = -(1 << (n - 1)) if draw(st.integers(0, 3)) == 0 else 0
         lo = draw(st.integers(bottom, top))
         hi = draw(st.integers(lo, top))
+        if draw(st.integers(0, 5)) == 0:
+            # a configured range may be wider than the field: the width still binds
+            hi = top + draw(st.integers(1, 9))
+            if bottom < 0:
+                lo = bottom - draw(st.integers(0, 3))
         alt['bytecode'] = {'size': n, 'min': lo, 'max': hi}
         p = draw(st.sampled_from(['suffix', 'prefix', None]))
         if p:
@@ -207,8 +212,10 @@ def _index_extra(draw, extra, idx, isz, kind, env):
         # the index code is the value of a run-time expression
         bottom = -(1 << (isz - 1)) if draw(st.booleans()) else 0
         lo = draw(st.integers(bottom, (1 << isz) - 1))
-        idx['idx_nbc'] = {'type': 'numeric_bytecode',
-                          'bytecode': {'size': isz, 'min': lo, 'max': draw(st.integers(lo, (1 << isz) - 1))}}
+        hi = draw(st.integers(lo, (1 << isz) - 1))
+        if draw(st.integers(0, 3)) == 0:
+            hi = (1 << isz) - 1 + draw(st.integers(1, 9))
+        idx['idx_nbc'] = {'type': 'numeric_bytecode', 'bytecode': {'size': isz, 'min': lo, 'max': hi}}
     elif extra == 'nenum':
         keys = draw(st.lists(st.integers(0, 40), min_size=1, max_size=4, unique=True))
         idx['idx_nen'] = {'type': 'numeric_enumeration',
@@ -533,7 +540,10 @@ def operand_for(draw, alt, isa_env, place, simple=False):
                 'addr_dep': True, 'rel_off': off}
     if kind == 'numeric_bytecode':
         bc = alt['bytecode']
-        v = draw(st.one_of(st.sampled_from([bc['min'], bc['max']]), st.integers(bc['min'], bc['max'])))
+        lo, hi = max(bc['min'], -(1 << (bc['size'] - 1))), min(bc['max'], (1 << bc['size']) - 1)
+        if lo > hi:
+            return None
+        v = draw(st.one_of(st.sampled_from([lo, hi]), st.integers(lo, hi)))
         return {'k': 'expr', 'e': value_ast(draw, v, consts)}
     if kind == 'numeric_enumeration':
         d = (alt.get('bytecode') or {}).get('value_dict') or alt['argument']['value_dict']
@@ -562,7 +572,8 @@ def operand_for(draw, alt, isa_env, place, simple=False):
             # these read exactly one expression token in the index position (nothing documents more): a literal or a
             # named constant; a negative value can only be written as a constant the caller agreed to define
             if ialt['type'] == 'numeric_bytecode':
-                lo, hi = ialt['bytecode']['min'], ialt['bytecode']['max']
+                isz = ialt['bytecode']['size']
+                lo, hi = max(ialt['bytecode']['min'], -(1 << (isz - 1))), min(ialt['bytecode']['max'], (1 << isz) - 1)
                 if 'minted' not in place:
                     lo = max(lo, 0)
                     if lo > hi:
